@@ -10,6 +10,7 @@ MNext == /\ k < Depth
               /\ (name = "changeLabels") => (A \cap R = {} /\ A \cup R # {})
               /\ (name # "changeLabels") => (A = {} /\ R = {})
               /\ (name # "editComment") => i = 1
+              /\ (name = "editCommentAmbiguous") => Len(b.text) >= 2
               /\ Request(name, auth, i, A, R)
               /\ hist' = Append(hist, [name |-> name, auth |-> auth, i |-> i, add |-> A, rem |-> R])
 MSpec == MInit /\ [][MNext]_<<vars, hist>>
